@@ -96,6 +96,8 @@ I30 = st.integers(0, 30)
 OP = st.one_of(
     st.tuples(st.just("set_child"), I30, st.booleans()), st.tuples(st.just("set_child"), I30, st.booleans()),
     st.tuples(st.just("set_child"), I30, st.booleans(), st.just(True)),          # ... the second Instance link, child2
+    st.tuples(st.just("set_child"), I30, st.just(True), st.booleans(), st.just(True)),      # ... an already populated object
+    st.tuples(st.just("set_child"), I30, st.just(True), st.booleans(), st.just(True)),
     st.tuples(st.just("append"), I30), st.tuples(st.just("append"), I30), st.tuples(st.just("pop"), I30, st.integers(-2, 2)),
     st.tuples(st.just("set_children"), I30, st.integers(0, 3)), st.tuples(st.just("slice"), I30, st.integers(0, 2)),
     st.tuples(st.just("reverse"), I30), st.tuples(st.just("sort"), I30), st.tuples(st.just("insert"), I30, st.integers(-2, 2)),
@@ -236,6 +238,13 @@ def _run_body(case, ctx, p, sig, loud_short, otc_name, obs_name, created, fresh,
             continue          # (assigning a container that compares EQUAL to the old one is, by design, not a change)
         if k == "set_child":
             new_child = fresh() if op[2] else None
+            if new_child is not None and len(op) > 4 and op[4]:
+                # the new object arrives with its links ALREADY populated (fresh objects throughout)
+                new_child.child = fresh()
+                new_child.children = [fresh(), fresh()]
+                new_child.table = {"a": fresh()}
+                new_child.group = {fresh()}
+                ctx.label("link-assigned-a-populated-object")
             old_link_value = n.child2 if (len(op) > 3 and op[3]) else n.child
             if eqn and new_child is not None and old_link_value is not None and new_child == old_link_value:
                 new_child.__dict__["_eqk"] = 1 - new_child.__dict__["_eqk"]        # (same reason: keep it a real change)
